@@ -73,6 +73,7 @@ func runC13(c *Ctx) {
 		lit  *ssa.Function
 		body ssa.CallInstruction
 		done ssa.Value // cell root of the channel closed after the body
+		isDone func(ssa.Value) bool
 	}
 	var attempts []attempt
 	if inv != nil {
@@ -121,15 +122,36 @@ func runC13(c *Ctx) {
 			continue
 		}
 		c.ok(key, a.body.Pos(), "completion channel closed after the body on all paths")
-		a.done = cellRoot(mustLoad(closes[0].Common().Args[0]))
+		// the channel: a captured variable (cell), or a value handed to the goroutine as an argument
+		chArg := stripConv(closes[0].Common().Args[0])
+		var doneVal ssa.Value
+		if par, ok := chArg.(*ssa.Parameter); ok {
+			for k, lp := range a.lit.Params {
+				if lp == par && k < len(a.g.Call.Args) {
+					chArg = stripConv(a.g.Call.Args[k])
+				}
+			}
+		}
+		a.done = cellRoot(mustLoad(chArg))
 		if a.done == nil {
+			if _, isLoad := loadOf(chArg); !isLoad {
+				if _, isPar := chArg.(*ssa.Parameter); !isPar {
+					doneVal = chArg
+				}
+			}
+		}
+		if a.done == nil && doneVal == nil {
 			c.unk(c.fnKey(a.f)+":join", a.g.Pos(), "cannot identify the completion channel")
 			continue
 		}
 		isDone := func(v ssa.Value) bool {
+			if doneVal != nil {
+				return stripConv(v) == doneVal
+			}
 			p, ok := loadOf(v)
 			return ok && cellRoot(p) == a.done
 		}
+		a.isDone = isDone
 		ri, re := recvEvents(a.f, isDone)
 		got, path = reach(a.f, a.g, func(i ssa.Instruction) bool {
 			r, ok := i.(*ssa.Return)
@@ -274,7 +296,7 @@ func runC13(c *Ctx) {
 
 	c.clause("C13.d", "T1", "the prioritized-start case cancels the body's context before joining; the watched channel is the one read under the notify lock", 1)
 	for _, a := range attempts {
-		if a.done == nil {
+		if a.isDone == nil {
 			continue
 		}
 		isNotify := func(v ssa.Value) bool {
@@ -307,10 +329,7 @@ func runC13(c *Ctx) {
 		})
 		// from each ch-edge target block, every path to a return or to a join passes cancel first
 		good := len(cancelCalls) > 0
-		isDone := func(v ssa.Value) bool {
-			p, ok := loadOf(v)
-			return ok && cellRoot(p) == a.done
-		}
+		isDone := a.isDone
 		ri, _ := recvEvents(a.f, isDone)
 		for _, e := range chEdges {
 			blk := a.f.Blocks[e.from].Succs[e.succ]
@@ -344,7 +363,7 @@ func runC13(c *Ctx) {
 		// ctx passed to body is the cancellable one
 		ctxOK := false
 		if len(a.body.Common().Args) == 1 {
-			for _, rv := range reachingCellVals(a.body.Common().Args[0]) {
+			for _, rv := range reachingCellVals(goActual(a.g, a.lit, a.body.Common().Args[0])) {
 				if e, ok := rv.(*ssa.Extract); ok && e.Index == 0 {
 					if src, ok := e.Tuple.(*ssa.Call); ok && (calleeID(src) == "context.WithTimeout" || calleeID(src) == "context.WithCancel") {
 						ctxOK = true
@@ -369,7 +388,7 @@ func runC13(c *Ctx) {
 		}) {
 			key := c.fnKey(f) + ":counter-write"
 			n, isC := constInt(ci.Common().Args[1])
-			root := c.fnKey(enclosingRoot(f))
+			root := c.fnKey(c.ownerRoot(f))
 			switch {
 			case calleeID(ci) != "sync/atomic.AddInt64" || !isC:
 				c.bad(key, ci.Pos(), "counter written other than by ±1")
@@ -434,13 +453,10 @@ func runC13(c *Ctx) {
 
 	c.clause("C13.g", "T1", "an attempt reports success only after the body completed; InvokeBackgroundTask returns only after a successful attempt", 2)
 	for _, a := range attempts {
-		if a.done == nil {
+		if a.isDone == nil {
 			continue
 		}
-		isDone := func(v ssa.Value) bool {
-			p, ok := loadOf(v)
-			return ok && cellRoot(p) == a.done
-		}
+		isDone := a.isDone
 		ri, re := recvEvents(a.f, isDone)
 		for _, r := range realReturns(a.f) {
 			vs := retVals(r, 0)
